@@ -29,15 +29,38 @@ def sinks_reached(facts, f, adt_suffix, is_sink, bodies=None, extra_seed=None):
     reached = {}
     fs = [f] + (bodies or [])
     seed = shape.variant_field_seed(adt_suffix)
+    closure_caps = {}
+    closure_items = {}
+
+    def note_closures(g, L):
+        for b, s in g.stmts():
+            if s[0] == "a" and s[2][0] == "agg" and s[2][1][0] == "closure":
+                closure_caps[s[2][1][1]] = [L.operand_labels(o) for o in s[2][2]]
+        # a closure handed to an iterator adaptor receives the items of the receiver
+        defs = {}
+        for b, s in g.stmts():
+            if s[0] == "a" and s[2][0] == "agg" and s[2][1][0] == "closure" and len(s[1]) == 1:
+                defs[s[1][0]] = s[2][1][1]
+            if s[0] == "a" and s[2][0] in ("use", "ref") and len(s[1]) == 1:
+                src = s[2][1][1][0] if s[2][0] == "use" and s[2][1][0] in ("c", "m") else (s[2][1][0] if s[2][0] == "ref" else None)
+                if src in defs:
+                    defs[s[1][0]] = defs[src]
+        for b, t in g.calls():
+            for i, o in enumerate(t[2]):
+                if o[0] in ("c", "m") and len(o[1]) == 1 and o[1][0] in defs:
+                    items = set()
+                    for j, o2 in enumerate(t[2]):
+                        if j != i:
+                            items |= L.operand_labels(o2)
+                    closure_items.setdefault(defs[o[1][0]], set()).update(items)
+
     for g in fs:
         if g is f:
             L = shape.Labels(g, None, seed)
-            closure_caps = {}
-            for b, s in g.stmts():
-                if s[0] == "a" and s[2][0] == "agg" and s[2][1][0] == "closure":
-                    closure_caps[s[2][1][1]] = [L.operand_labels(o) for o in s[2][2]]
+            note_closures(g, L)
         else:
             caps = closure_caps.get(g.name, [])
+            items = closure_items.get(g.name, set())
 
             def cseed(p, caps=caps):
                 out = set(seed(p) or [])
@@ -48,7 +71,8 @@ def sinks_reached(facts, f, adt_suffix, is_sink, bodies=None, extra_seed=None):
                                 out |= caps[e[1]]
                             break
                 return out
-            L = shape.Labels(g, None, cseed)
+            L = shape.Labels(g, None, cseed, param_labels={i: set(items) for i in range(2, g.nargs + 1)} if items else None)
+            note_closures(g, L)
         for b, t in g.calls():
             c = callee(t)
             if not is_sink(c, t):
